@@ -13,6 +13,7 @@ import (
 	"fmt"
 	"io"
 	"math/big"
+	"strings"
 
 	"github.com/oasisprotocol/curve25519-voi/internal/verif/alph"
 	"github.com/oasisprotocol/curve25519-voi/internal/verif/mc"
@@ -167,6 +168,66 @@ func (g optGuard) check(w *mc.W, after string) {
 	presetsIntact(w, after)
 }
 
+// ---------------------------------------------------------------------------
+// Reference-side classes of a scalar as a fixed-base multiplication sees it (signed radix-16 recoding: digits in
+// [-8, 8) with carry, the last digit keeps the carry and is not recentred).
+
+func radix16(v *big.Int) [64]int {
+	b := ref.LE32(v)
+	var d [64]int
+	for i := 0; i < 32; i++ {
+		d[2*i] = int(b[i] & 15)
+		d[2*i+1] = int(b[i] >> 4)
+	}
+	for i := 0; i < 63; i++ {
+		carry := (d[i] + 8) >> 4
+		d[i] -= carry << 4
+		d[i+1] += carry
+	}
+	return d
+}
+
+// scalarClasses names the classes v belongs to; top is "a" (clamped secret: top byte ranges 0x40-0x47 ... 0x78-0x7f) or
+// "r" (nonce mod L: top byte 0x00 ... 0x0f).
+func scalarClasses(kind string, v *big.Int) []string {
+	b := ref.LE32(v)
+	var out []string
+	if kind == "a" {
+		out = append(out, fmt.Sprintf("a/top-byte-0x%02x-0x%02x", b[31]&0xf8, b[31]|7))
+	} else {
+		out = append(out, fmt.Sprintf("r/top-byte-0x%02x", b[31]))
+	}
+	d := radix16(v)
+	raw := func(i int) int {
+		if i%2 == 0 {
+			return int(b[i/2] & 15)
+		}
+		return int(b[i/2] >> 4)
+	}
+	has := map[string]bool{}
+	for i := 0; i < 63; i++ {
+		if d[i] == -8 {
+			has["digit -8"] = true
+		}
+		if d[i] == 7 {
+			has["digit +7"] = true
+		}
+		if raw(i) == 7 && i > 0 && d[i] == -8 {
+			has["nibble 7 + carry-in -> -8 with carry-out"] = true
+		}
+		if d[i] == 0 {
+			has["digit 0"] = true
+		}
+	}
+	for _, n := range []string{"digit -8", "digit +7", "nibble 7 + carry-in -> -8 with carry-out", "digit 0"} {
+		if has[n] {
+			out = append(out, kind+"/"+n)
+		}
+	}
+	out = append(out, fmt.Sprintf("%s/digit63=%+d", kind, d[63]))
+	return out
+}
+
 func callB(f func() bool) (ok, panicked bool) {
 	defer func() {
 		if r := recover(); r != nil {
@@ -190,6 +251,7 @@ type sigRec struct {
 	pub, m, sig []byte
 	hash        crypto.Hash
 	ctx         string
+	norep       bool // made with OS entropy (nil reader): not reproducible by index
 }
 
 type harness struct {
@@ -207,16 +269,22 @@ func (h *harness) verifySuite(w *mc.W, what string, pub, m, sig []byte, hash cry
 	desc := func(s string) string {
 		return fmt.Sprintf("%s: %s pub=%x sig=%x ctx=%x hash=%v msg=%x", what, s, pub, sig, ctx, hash, m)
 	}
+	// a signature made with entropy from the operating system (nil reader) cannot be reproduced by index: the concrete
+	// signature is in every description and the violation is reported without replay
+	fail := w.Fail
+	if strings.Contains(what, "crypto/rand") {
+		fail = w.FailNoReplay
+	}
 	w.Eval("verification-suite-on-produced-signature", true)
 	if len(sig) != 64 {
-		w.Fail("Sign/length", desc("signature is not 64 bytes"), cas)
+		fail("Sign/length", desc("signature is not 64 bytes"), cas)
 		return
 	}
 	if _, ok, canon := ref.Decode(sig[:32]); !ok || !canon {
-		w.Fail("Sign/R-not-canonical", desc("R is not a canonical point encoding"), cas)
+		fail("Sign/R-not-canonical", desc("R is not a canonical point encoding"), cas)
 	}
 	if ref.FromLE(sig[32:]).Cmp(ref.L) >= 0 {
-		w.Fail("Sign/S-not-reduced", desc("S >= L"), cas)
+		fail("Sign/S-not-reduced", desc("S >= L"), cas)
 	}
 	va := variantOf(hash, ctx)
 	f := refed.Analyse(pub, m, sig, va)
@@ -226,26 +294,26 @@ func (h *harness) verifySuite(w *mc.W, what string, pub, m, sig []byte, hash cry
 			continue
 		}
 		if ok, why := f.Verdict(fl); !ok {
-			w.Fail("Sign/rejected-by-reference-predicate", desc("reference predicate rejects under {"+fl.Name()+"}: "+why), cas)
+			fail("Sign/rejected-by-reference-predicate", desc("reference predicate rejects under {"+fl.Name()+"}: "+why), cas)
 			break
 		}
 	}
 	if stded.VerifyWithOptions(pub, m, sig, &stded.Options{Hash: hash, Context: ctx}) != nil {
-		w.Fail("Sign/rejected-by-crypto/ed25519", desc("Go crypto/ed25519 rejects"), cas)
+		fail("Sign/rejected-by-crypto/ed25519", desc("Go crypto/ed25519 rejects"), cas)
 	}
 	epk, err := ed.NewExpandedPublicKey(pub)
 	if err != nil {
-		w.Fail("NewExpandedPublicKey/honest-key", desc("NewExpandedPublicKey failed: "+err.Error()), cas)
+		fail("NewExpandedPublicKey/honest-key", desc("NewExpandedPublicKey failed: "+err.Error()), cas)
 	}
 	for _, p := range presets {
 		o := &ed.Options{Hash: hash, Context: ctx, Verify: p.vo}
 		og := guardOpts(o)
 		if ok, pan := callB(func() bool { return ed.VerifyWithOptions(pub, m, sig, o) }); !ok {
-			w.Fail("VerifyWithOptions/rejects-own-signature/"+p.name, desc(fmt.Sprintf("rejected (panic=%v) under preset %s", pan, p.name)), cas)
+			fail("VerifyWithOptions/rejects-own-signature/"+p.name, desc(fmt.Sprintf("rejected (panic=%v) under preset %s", pan, p.name)), cas)
 		}
 		if epk != nil {
 			if ok, pan := callB(func() bool { return ed.VerifyExpandedWithOptions(epk, m, sig, o) }); !ok {
-				w.Fail("VerifyExpandedWithOptions/rejects-own-signature/"+p.name, desc(fmt.Sprintf("rejected (panic=%v) under preset %s", pan, p.name)), cas)
+				fail("VerifyExpandedWithOptions/rejects-own-signature/"+p.name, desc(fmt.Sprintf("rejected (panic=%v) under preset %s", pan, p.name)), cas)
 			}
 		}
 		og.check(w, "VerifyWithOptions / VerifyExpandedWithOptions")
@@ -255,12 +323,12 @@ func (h *harness) verifySuite(w *mc.W, what string, pub, m, sig []byte, hash cry
 	no := &ed.Options{Hash: hash, Context: ctx}
 	ng := guardOpts(no)
 	if ok, _ := callB(func() bool { return ed.VerifyWithOptions(pub, m, sig, no) }); !ok {
-		w.Fail("VerifyWithOptions/rejects-own-signature/Verify=nil", desc("rejected with Verify=nil"), cas)
+		fail("VerifyWithOptions/rejects-own-signature/Verify=nil", desc("rejected with Verify=nil"), cas)
 	}
 	ng.check(w, "VerifyWithOptions(Verify=nil)")
 	if epk != nil {
 		if ok, _ := callB(func() bool { return ed.VerifyExpandedWithOptions(epk, m, sig, no) }); !ok {
-			w.Fail("VerifyExpandedWithOptions/rejects-own-signature/Verify=nil", desc("rejected with Verify=nil"), cas)
+			fail("VerifyExpandedWithOptions/rejects-own-signature/Verify=nil", desc("rejected with Verify=nil"), cas)
 		}
 		ng.check(w, "VerifyExpandedWithOptions(Verify=nil)")
 		bv := ed.NewBatchVerifier()
@@ -269,13 +337,13 @@ func (h *harness) verifySuite(w *mc.W, what string, pub, m, sig []byte, hash cry
 		bv.AddExpandedWithOptions(epk, m, sig, no)
 		ng.check(w, "BatchVerifier.AddExpandedWithOptions(Verify=nil)")
 		if all, each := bv.Verify(constReader(sig[0])); !all || len(each) != 2 || !each[0] || !each[1] {
-			w.Fail("BatchVerifier.Verify/rejects-own-signature/Verify=nil", desc(fmt.Sprintf("batch with Verify=nil: all=%v each=%v", all, each)), cas)
+			fail("BatchVerifier.Verify/rejects-own-signature/Verify=nil", desc(fmt.Sprintf("batch with Verify=nil: all=%v each=%v", all, each)), cas)
 		}
 		presetsIntact(w, "BatchVerifier.Verify")
 	}
 	if hash == 0 && ctx == "" {
 		if ok, _ := callB(func() bool { return ed.Verify(pub, m, sig) }); !ok {
-			w.Fail("Verify/rejects-own-signature", desc("rejected by Verify"), cas)
+			fail("Verify/rejects-own-signature", desc("rejected by Verify"), cas)
 		}
 	}
 }
@@ -284,6 +352,13 @@ func (h *harness) verifySuite(w *mc.W, what string, pub, m, sig []byte, hash cry
 func (h *harness) batchSuite(w *mc.W, what string, recs []sigRec, salt int) {
 	if len(recs) == 0 {
 		return
+	}
+	fail := w.Fail
+	for _, r := range recs {
+		if r.norep {
+			fail = w.FailNoReplay
+			what += fmt.Sprintf(" [contains the OS-entropy signature %x on message %x]", r.sig, r.m)
+		}
 	}
 	for pi, p := range presets {
 		for mode := 0; mode < 2; mode++ { // 0: Add (auto-expansion), 1: ForceNoPublicKeyExpansion
@@ -308,7 +383,7 @@ func (h *harness) batchSuite(w *mc.W, what string, recs []sigRec, salt int) {
 				bad = bad || !e
 			}
 			if bad {
-				w.Fail("BatchVerifier.Verify/rejects-valid-signatures/"+p.name, fmt.Sprintf("%s: batch of %d valid signatures under preset %s (mode %d): all=%v each=%v", what, len(recs), p.name, mode, all, each),
+				fail("BatchVerifier.Verify/rejects-valid-signatures/"+p.name, fmt.Sprintf("%s: batch of %d valid signatures under preset %s (mode %d): all=%v each=%v", what, len(recs), p.name, mode, all, each),
 					map[string]string{"first_sig": mc.Hex(recs[0].sig), "first_pub": mc.Hex(recs[0].pub), "n": fmt.Sprint(len(recs))})
 			}
 			// the same verifier object after a FAILED batch (one signature bit flipped) and Reset, then after Reset again
@@ -330,7 +405,7 @@ func (h *harness) batchSuite(w *mc.W, what string, recs []sigRec, salt int) {
 					bad = bad || !each[j]
 				}
 				if bad {
-					w.Fail("BatchVerifier.Verify/after-Reset/"+p.name, fmt.Sprintf("%s: after Reset, [changed signature, %d valid] gives all=%v each=%v (mode %d)", what, len(recs), all, each, mode),
+					fail("BatchVerifier.Verify/after-Reset/"+p.name, fmt.Sprintf("%s: after Reset, [changed signature, %d valid] gives all=%v each=%v (mode %d)", what, len(recs), all, each, mode),
 						map[string]string{"first_sig": mc.Hex(recs[0].sig), "first_pub": mc.Hex(recs[0].pub)})
 				}
 				bv.Reset()
@@ -347,7 +422,7 @@ func (h *harness) batchSuite(w *mc.W, what string, recs []sigRec, salt int) {
 					bad = bad || !e
 				}
 				if bad {
-					w.Fail("BatchVerifier.Verify/after-Reset/"+p.name, fmt.Sprintf("%s: after a failed batch and Reset, %d valid signatures give all=%v each=%v (mode %d)", what, len(recs), all, each, mode),
+					fail("BatchVerifier.Verify/after-Reset/"+p.name, fmt.Sprintf("%s: after a failed batch and Reset, %d valid signatures give all=%v each=%v (mode %d)", what, len(recs), all, each, mode),
 						map[string]string{"first_sig": mc.Hex(recs[0].sig), "first_pub": mc.Hex(recs[0].pub)})
 				}
 			}
@@ -356,7 +431,7 @@ func (h *harness) batchSuite(w *mc.W, what string, recs []sigRec, salt int) {
 			presetsIntact(w, "BatchVerifier.Verify / VerifyBatchOnly")
 			// documented: a batch containing cofactor-less entries returns false from VerifyBatchOnly
 			if only != !p.fl.Cofactorless {
-				w.Fail("BatchVerifier.VerifyBatchOnly/"+p.name, fmt.Sprintf("%s: VerifyBatchOnly=%v on %d valid signatures under preset %s", what, only, len(recs), p.name),
+				fail("BatchVerifier.VerifyBatchOnly/"+p.name, fmt.Sprintf("%s: VerifyBatchOnly=%v on %d valid signatures under preset %s", what, only, len(recs), p.name),
 					map[string]string{"first_sig": mc.Hex(recs[0].sig), "n": fmt.Sprint(len(recs))})
 			}
 		}
@@ -388,17 +463,71 @@ func run(c *mc.Ctx) {
 	for i, s := range seeds {
 		rkeys[i] = refed.NewKey(s)
 	}
+	// ---- class seeds: the clamped secret scalar a = clamp(SHA-512(seed)[:32]) (reference side) must cover every class a
+	// fixed-base multiplication can distinguish.  Deterministic search over mc.Bytes(seed, "c02-seed", i), i = 0, 1, ...:
+	// a seed is taken while one of its classes still needs members; then the list is padded with the next seeds.
+	aNeed := map[string]int{"a/digit -8": 2, "a/digit +7": 2, "a/nibble 7 + carry-in -> -8 with carry-out": 2, "a/digit 0": 2,
+		"a/digit63=+4": 2, "a/digit63=+5": 1, "a/digit63=+6": 1, "a/digit63=+7": 1, "a/digit63=+8": 2}
+	for t := 0x40; t < 0x80; t += 8 {
+		aNeed[fmt.Sprintf("a/top-byte-0x%02x-0x%02x", t, t+7)] = 2
+	}
+	classCount := map[string]int{}
+	var classSeeds [][]byte
+	seenSeed := map[string]bool{}
+	takeSeed := func(sd []byte) {
+		seenSeed[string(sd)] = true
+		for _, cl := range scalarClasses("a", ref.ClampedScalarFromSeed(sd)) {
+			classCount[cl]++
+		}
+	}
+	for _, sd := range seeds {
+		takeSeed(sd)
+	}
+	missing := func() bool {
+		for cl, n := range aNeed {
+			if classCount[cl] < n {
+				return true
+			}
+		}
+		return false
+	}
+	for i := 0; i < 4096 && (missing() || len(classSeeds) < c.Pick(40, 120)); i++ {
+		sd := mc.Bytes(c.Seed, "c02-seed", i, 32)
+		if seenSeed[string(sd)] {
+			continue
+		}
+		useful := !missing()
+		for _, cl := range scalarClasses("a", ref.ClampedScalarFromSeed(sd)) {
+			if classCount[cl] < aNeed[cl] {
+				useful = true
+			}
+		}
+		if useful {
+			classSeeds = append(classSeeds, sd)
+			takeSeed(sd)
+		}
+	}
+	keySeeds := append(append([][]byte{}, seeds...), classSeeds...)
+	for cl, n := range classCount {
+		c.Rep.Classes["seed-class/"+cl] = int64(n) // reference-side membership counts (guarded below)
+	}
+	c.Rep.Extra["class_seeds"] = len(classSeeds)
 	contexts := []string{"", "\x00", string(bytes.Repeat([]byte{0xfe}, 255)), string(bytes.Repeat([]byte{0x01}, 256))}
 	hashes := []crypto.Hash{crypto.Hash(0), crypto.SHA512, crypto.SHA256}
 	c.Rep.Extra["seeds"] = len(seeds)
 	c.Rep.Extra["message_lengths"] = alph.Lengths
 
 	// ---- sub-space "keys": derivation, GenerateKey, accessors ----
-	c.Par("keys", len(seeds), func(w *mc.W, i int) {
-		seed := seeds[i]
-		cas := map[string]string{"seed": mc.Hex(seed)}
+	c.Par("keys", len(keySeeds), func(w *mc.W, i int) {
+		seed := keySeeds[i]
+		cas := map[string]string{"seed": mc.Hex(seed), "clamped_scalar_classes": strings.Join(scalarClasses("a", ref.ClampedScalarFromSeed(seed)), "; ")}
 		want := stded.NewKeyFromSeed(seed)
-		rk := rkeys[i]
+		var rk *refed.Key
+		if i < len(seeds) {
+			rk = rkeys[i]
+		} else {
+			rk = refed.NewKey(seed)
+		}
 		if !bytes.Equal(want[32:], rk.Pub) {
 			c.Broken(fmt.Sprintf("oracles disagree on the public key of seed %x", seed))
 		}
@@ -467,7 +596,22 @@ func run(c *mc.Ctx) {
 			pub1, pk1, err1 := ed.GenerateKey(nil)
 			_, pk2, err2 := ed.GenerateKey(nil)
 			if err1 != nil || err2 != nil || len(pk1) != 64 || len(pk2) != 64 || !bytes.Equal(pub1, pk1[32:]) || !bytes.Equal(pk1, stded.NewKeyFromSeed(pk1[:32])) || bytes.Equal(pk1, pk2) {
-				w.Fail("GenerateKey/nil-reader", fmt.Sprintf("GenerateKey(nil) gives priv=%x err=%v and priv=%x err=%v (must be two different RFC 8032 key pairs)", []byte(pk1), err1, []byte(pk2), err2), nil)
+				// the input came from the operating system: not replayable by index, so the concrete key goes into the report
+				w.FailNoReplay("GenerateKey/nil-reader", fmt.Sprintf("GenerateKey(nil) gives priv=%x err=%v and priv=%x err=%v (must be two different RFC 8032 key pairs)", []byte(pk1), err1, []byte(pk2), err2),
+					map[string]string{"generated_private_key_1": mc.Hex(pk1), "generated_private_key_2": mc.Hex(pk2)})
+			}
+			// the deterministic oracle on the very seeds the OS produced
+			for _, pk := range [][]byte{pk1, pk2} {
+				if len(pk) != 64 {
+					continue
+				}
+				sd := append([]byte{}, pk[:32]...)
+				wantK := stded.NewKeyFromSeed(sd)
+				got, _, pan := callSign(func() ([]byte, error) { return ed.NewKeyFromSeed(sd), nil })
+				if pan || !bytes.Equal(got, wantK) {
+					w.FailNoReplay("NewKeyFromSeed", fmt.Sprintf("NewKeyFromSeed(%x)=%x want %x (seed produced by GenerateKey(nil); clamped scalar classes: %s)", sd, got, []byte(wantK),
+						strings.Join(scalarClasses("a", ref.ClampedScalarFromSeed(sd)), "; ")), map[string]string{"seed": mc.Hex(sd)})
+				}
 			}
 		}
 		if i < 3 {
@@ -644,10 +788,10 @@ func run(c *mc.Ctx) {
 						w.Eval("randomised/crypto-rand", true)
 						sig, err, pan := sign(nil)
 						if pan || err != nil || len(sig) != 64 {
-							w.Fail("PrivateKey.Sign/randomised", od+" reader=nil failed", cas(od))
+							w.FailNoReplay("PrivateKey.Sign/randomised", fmt.Sprintf("%s reader=nil (crypto/rand) failed: sig=%x err=%v panic=%v", od, sig, err, pan), cas(od))
 						} else {
 							if bytes.Equal(sig[:32], det[:32]) {
-								w.Fail("PrivateKey.Sign/randomised-reuses-deterministic-nonce", od+" reader=nil", cas(od))
+								w.FailNoReplay("PrivateKey.Sign/randomised-reuses-deterministic-nonce", fmt.Sprintf("%s reader=nil (crypto/rand): signature %x has the deterministic R", od, sig), cas(od))
 							}
 							note(sig, "randomised(crypto/rand)")
 						}
@@ -718,7 +862,7 @@ func run(c *mc.Ctx) {
 		var recs []sigRec
 		for _, s := range order {
 			h.verifySuite(w, produced[s], pub, m, []byte(s), hash, ctx)
-			recs = append(recs, sigRec{pub, m, []byte(s), hash, ctx})
+			recs = append(recs, sigRec{pub, m, []byte(s), hash, ctx, strings.Contains(produced[s], "crypto/rand")})
 		}
 		h.batchSuite(w, base, recs, i)
 		if valid && i%211 == 0 {
@@ -802,6 +946,98 @@ func run(c *mc.Ctx) {
 			}
 		}
 	}
+
+	// ---- sub-space "class-sign": every class seed signs (pure, ctx, ph) == crypto/ed25519, and the result verifies ----
+	classVars := []vr{{0, "", "pure"}, {0, "class ctx", "ctx"}, {crypto.SHA512, "", "ph"}}
+	signClass := func(w *mc.W, class string, sd, m []byte, v vr) {
+		sp := stded.NewKeyFromSeed(sd)
+		priv := ed.PrivateKey(append([]byte{}, sp...)) // the RFC key pair from the std-lib: signing is judged independently of the library's key derivation
+		want, err := sp.Sign(nil, m, &stded.Options{Hash: v.hash, Context: v.ctx})
+		if err != nil {
+			c.Broken("std-lib refused a valid signing request: " + err.Error())
+			return
+		}
+		what := fmt.Sprintf("%s: seed=%x variant=%s msg=%x", class, sd, v.name, m)
+		cas := map[string]string{"seed": mc.Hex(sd), "message": mc.Hex(m), "context": mc.Hex([]byte(v.ctx)), "hash": hashName(v.hash), "want": mc.Hex(want)}
+		w.Eval(class+"/sign", true)
+		so := &ed.Options{Hash: v.hash, Context: v.ctx}
+		sg := guardOpts(so)
+		sig, serr, pan := callSign(func() ([]byte, error) { return priv.Sign(nil, m, so) })
+		sg.check(w, "PrivateKey.Sign")
+		if pan || serr != nil || !bytes.Equal(sig, want) {
+			w.Fail("PrivateKey.Sign/deterministic", fmt.Sprintf("%s: got sig=%x err=%v, RFC 8032 / crypto/ed25519 signature is %x", what, sig, serr, want), cas)
+		}
+		w.EvalN(class+"/verify", 2, true)
+		pub := []byte(sp[32:])
+		ok1, _ := callB(func() bool { return ed.VerifyWithOptions(pub, m, want, so) })
+		ok2 := false
+		if epk, err := ed.NewExpandedPublicKey(pub); err == nil {
+			ok2, _ = callB(func() bool { return ed.VerifyExpandedWithOptions(epk, m, want, so) })
+		}
+		if !ok1 || !ok2 {
+			w.Fail("Verify/rejects-RFC-signature/Default", fmt.Sprintf("%s: VerifyWithOptions=%v VerifyExpandedWithOptions=%v on the RFC signature %x", what, ok1, ok2, want), cas)
+		}
+	}
+	c.Par("class-sign", len(classSeeds)*len(classVars), func(w *mc.W, i int) {
+		v := classVars[i%len(classVars)]
+		m := mc.Bytes(c.Seed, "c02-class-msg", i, 48)
+		if v.hash == crypto.SHA512 {
+			m = refed.Prehash(m)
+		}
+		signClass(w, "class-sign", classSeeds[i/len(classVars)], m, v)
+	})
+
+	// ---- sub-space "nonce-classes": messages chosen (deterministic search) so that the nonce r = SHA-512(prefix || M) mod L,
+	// computed by the reference, covers every top byte 0x00..0x0f and the radix-16 digit extremes ----
+	var nonceMsgs [][]byte
+	{
+		rNeed := map[string]int{"r/digit -8": 2, "r/digit +7": 2, "r/nibble 7 + carry-in -> -8 with carry-out": 2, "r/digit 0": 2, "r/digit63=+0": 1, "r/digit63=+1": 1}
+		for t := 0; t < 16; t++ {
+			rNeed[fmt.Sprintf("r/top-byte-0x%02x", t)] = 1
+		}
+		rCount := map[string]int{}
+		miss := func() bool {
+			for cl, n := range rNeed {
+				if rCount[cl] < n {
+					return true
+				}
+			}
+			return false
+		}
+		prefix := rkeys[3%len(rkeys)].Prefix
+		for j := 0; j < 4096 && miss(); j++ {
+			m := mc.Bytes(c.Seed, "c02-nonce-msg", j, 40)
+			r := ref.SMod(ref.FromLE(ref.SHA512(prefix, m)))
+			cls := scalarClasses("r", r)
+			useful := false
+			for _, cl := range cls {
+				if rCount[cl] < rNeed[cl] {
+					useful = true
+				}
+			}
+			if useful {
+				nonceMsgs = append(nonceMsgs, m)
+				for _, cl := range cls {
+					rCount[cl]++
+				}
+			}
+		}
+		for cl, n := range rCount {
+			c.Rep.Classes["nonce-class/"+cl] = int64(n)
+		}
+		c.Rep.Extra["nonce_class_messages"] = len(nonceMsgs)
+		if !c.Replaying() {
+			for cl, n := range rNeed {
+				c.Require("nonce-class/"+cl, int64(n))
+			}
+			for cl, n := range aNeed {
+				c.Require("seed-class/"+cl, int64(n))
+			}
+		}
+	}
+	c.Par("nonce-classes", len(nonceMsgs), func(w *mc.W, i int) {
+		signClass(w, "nonce-classes", seeds[3%len(seeds)], nonceMsgs[i], classVars[0])
+	})
 
 	// ---- sub-space "caller-memory": every byte-slice argument is a sub-slice of ONE caller buffer with spare capacity ----
 	// private key, message and seed live in one arena between guard bytes (capacity of every slice reaches the end of
@@ -1288,7 +1524,7 @@ func run(c *mc.Ctx) {
 				c.Broken("bigbatch: std-lib could not sign: " + err.Error())
 				return
 			}
-			pool = append(pool, sigRec{[]byte(sp[32:]), m, sig, hash, ctx})
+			pool = append(pool, sigRec{pub: []byte(sp[32:]), m: m, sig: sig, hash: hash, ctx: ctx})
 		}
 		sizes := []int{1, 2, 3, 8, 64, 93, 94, 95, 128, 190, 191}
 		c.Par("bigbatch", len(sizes), func(w *mc.W, i int) {
@@ -1342,6 +1578,7 @@ func run(c *mc.Ctx) {
 	c.Require("invalid-options/error", 50)
 	c.Require("selfverify/corrupted-public-half", 50)
 	c.Require("collision/sign", 100)
+	c.Require("class-sign/sign", 60)
 	c.Require("cache-twin/verify", 100)
 	c.Require("caller-memory/sign", 40)
 	c.Require("arg-lengths/private-key", 500)
